@@ -64,3 +64,11 @@ wasm_bindgen_test::wasm_bindgen_test_configure!(run_in_browser);
 
 #[cfg(feature = "uniffi")]
 uniffi::setup_scaffolding!();
+
+/// Verification hooks: public paths to crate-private items for an external conformance
+/// harness. Nothing here changes behaviour and nothing is compiled unless
+/// `--cfg eigerco_lumina_verif` is passed.
+#[cfg(eigerco_lumina_verif)]
+pub mod verif {
+    pub use crate::validator_set::ValidatorSetExt;
+}
